@@ -39,8 +39,8 @@ func (c12) Floors(tier string, c map[string]int64) []string {
 	if c["race_enabled_workers"] == 0 || c["race_disabled_workers"] > 0 {
 		out = append(out, "a worker was not built with the race detector")
 	}
-	if c["set_size/op-pair"] < 45 {
-		out = append(out, fmt.Sprintf("only %d of 55 op-kind pairs ran concurrently", c["set_size/op-pair"]))
+	if c["set_size/op-pair"] < 55 {
+		out = append(out, fmt.Sprintf("only %d of 66 op-kind pairs ran concurrently", c["set_size/op-pair"]))
 	}
 	if c["concurrent_ops"] < 1000 {
 		out = append(out, "fewer than 1000 concurrent operations")
@@ -144,7 +144,7 @@ type c12op struct {
 	Names []string `json:"names,omitempty"`
 }
 
-var c12kinds = []string{"NewURLFromRaw", "NewRequest", "UnmarshalDocument", "UnmarshalPartialResource", "New+Set", "MarshalDocument", "GetType", "HasType", "Check", "Rels"}
+var c12kinds = []string{"NewURLFromRaw", "NewRequest", "UnmarshalDocument", "UnmarshalPartialResource", "New+Set", "Types[i].New", "MarshalDocument", "GetType", "HasType", "Check", "Rels"}
 
 // exec runs one op against the shared schema and returns a result fingerprint.
 func (o *c12op) exec(s *SchemaSpec, schema *jsonapi.Schema) string {
@@ -183,6 +183,19 @@ func (o *c12op) exec(s *SchemaSpec, schema *jsonapi.Schema) string {
 		t := s.Type(o.Type)
 		applySpec(res, t, o.Res)
 		return resFingerprint(res)
+	case "Types[i].New":
+		// creating a resource from the schema's own list of types (no copy through GetType). The resource is
+		// not touched afterwards: a soft resource made this way points INTO the schema by design, so using it
+		// is editing the schema; creating it must not be.
+		for i := range schema.Types {
+			if schema.Types[i].Name == o.Type {
+				if res := schema.Types[i].New(); res == nil {
+					return "nil"
+				}
+				return "created"
+			}
+		}
+		return "no-such-type"
 	case "MarshalDocument":
 		d := o.Doc
 		doc := &jsonapi.Document{PrePath: d.Prefix, RelData: copyStrMap(d.RelData)}
@@ -331,7 +344,7 @@ func (m c12) genOps(r *RNG, s *SchemaSpec, n int) []c12op {
 				body = `{"data":` + body + `,"included":[` + body + `]}`
 			}
 			o.Body = body
-		case "New+Set":
+		case "New+Set", "Types[i].New":
 			o.Type = t.Name
 			o.Res = genResource(r, t, genID(r))
 		case "MarshalDocument":
@@ -386,7 +399,11 @@ func (m c12) Case(c *Ctx, r *RNG) {
 		// type's constructor happens concurrently in the cold phase
 		for ti := range s.Types {
 			t := &s.Types[ti]
-			lists[g] = append(lists[g], c12op{Kind: "New+Set", Type: t.Name, Res: genResource(r, t, genID(r))})
+			kind := "New+Set"
+			if g%2 == 1 {
+				kind = "Types[i].New"
+			}
+			lists[g] = append(lists[g], c12op{Kind: kind, Type: t.Name, Res: genResource(r, t, genID(r))})
 		}
 		lists[g] = append(lists[g], m.genOps(r, s, nops)...)
 	}
